@@ -22,15 +22,7 @@ ASSUMPTIONS = [
     "coefficient pairs whose tangent/first-chord straddle a coordinate axis are the known finding D1 and are skipped",
 ]
 
-# tolerance on a unit-tangent component, by interface class and fit method
-def eps_coef(theta, npts, fit):
-    if npts == 2:
-        return 1e-9
-    if theta == 0.0:
-        return 3e-3
-    if abs(theta) < 0.01:
-        return 3e-3 if fit == "dlite" else 1e-6
-    return 1e-7
+from ..infer import eps_coef  # per-class tolerance on a unit-tangent component (measured floors)
 
 
 @st.composite
@@ -148,7 +140,7 @@ def check_case(p, ctx):
                 continue
             err = max(abs(M[r0, c] - tg.real), abs(M[r0 + 1, c] - tg.imag))
             cls = ("2pt" if npts == 2 else "straight" if r.c is None else
-                   "nearstraight" if abs(r.theta) < 0.01 else "curved") + ":" + p["fit"]
+                   "nearstraight" if abs(r.theta) < (0.1 if p["fit"] == "dlite" else 0.01) else "curved") + ":" + p["fit"]
             key = "maxerr:" + cls
             ctx.classes[key] = max(ctx.classes.get(key, 0.0), float(err))
             if err > tol and (worst is None or err / tol > worst[0]):
@@ -178,7 +170,7 @@ def check_case(p, ctx):
 
 
 def run(ctx):
-    n = ctx.budget(quick=260, thorough=1500)
+    n = ctx.budget(quick=700, thorough=1500)
     drive(ctx, params(ctx.tier), check_case, n, label="tissue")
 
 
